@@ -490,14 +490,14 @@ func structuralSingles(sd seedDoc) []Body {
 // otherReports are REPORT roots defined by other RFCs; a root from this set
 // is never labelled "wrong root".
 var otherReports = map[string]bool{
-	"{" + nsC + "}free-busy-query":            true,
-	"{" + nsD + "}sync-collection":            true,
-	"{" + nsD + "}expand-property":            true,
-	"{" + nsD + "}principal-property-search":  true,
+	"{" + nsC + "}free-busy-query":               true,
+	"{" + nsD + "}sync-collection":               true,
+	"{" + nsD + "}expand-property":               true,
+	"{" + nsD + "}principal-property-search":     true,
 	"{" + nsD + "}principal-search-property-set": true,
-	"{" + nsD + "}principal-match":            true,
-	"{" + nsD + "}acl-principal-prop-set":     true,
-	"{" + nsD + "}version-tree":               true,
+	"{" + nsD + "}principal-match":               true,
+	"{" + nsD + "}acl-principal-prop-set":        true,
+	"{" + nsD + "}version-tree":                  true,
 }
 
 var garbageValues = []string{"", " ", "x", "-1", "0", "99999999999999999999", "yes", "<&>\"'", "é€𝄞", "a\tb", strings.Repeat("A", 300), "%00", "../..", "20240101T000000Z", "anyof", "equals"}
